@@ -51,42 +51,38 @@ Print Assumptions unregistered_never_invoked.
 
 (* ---- "For observable counters and up-down counters whose callbacks report running totals, a cumulative reader receives the
    reported total": for every history (totals going up or down, attribute sets appearing and disappearing, any interleaving of
-   readers) it is given exactly the attribute sets reported so far, each with the total most recently reported for it.
-   Hypotheses: no collection reports one attribute set of the instrument twice (the excluded region is finding F27, see
-   [cumulative_reader_gets_reported_total_refuted]) and no negative total on a monotonic counter (outside the property's domain). *)
-Theorem cumulative_reader_gets_reported_total_partial : forall c i, (i < ninstr c)%nat -> forall ops r,
+   readers, several callbacks on one instrument, the same callback registered twice) it is given exactly the attribute sets
+   reported so far, each with the total most recently reported for it; when one collection reports an attribute set more than
+   once the last report counts.  The only hypothesis is the property's domain: no negative total on a monotonic counter. *)
+Theorem cumulative_reader_gets_reported_total : forall c i, (i < ninstr c)%nat -> forall ops r,
   Forall (op_ok c) ops -> (r < nreaders c)%nat -> cumulative c r = true -> is_last (kind_of c i) = false ->
-  no_repeated_report c (ops ++ [OCollect r]) i -> no_negative_total c (ops ++ [OCollect r]) i ->
+  no_negative_total c (ops ++ [OCollect r]) i ->
   exists o, snd (run c (ops ++ [OCollect r])) = snd (run c ops) ++ [o] /\
             forall a, In a attrs ->
               given c i (nth i (co_tabs o) None) a =
               option_map (fun v => PSum v (is_mono (kind_of c i))) (last_report (events c (ops ++ [OCollect r]) i) a).
 Proof. exact cumulative_reader_gets_reported_total_lemma. Qed.
-Print Assumptions cumulative_reader_gets_reported_total_partial.
+Print Assumptions cumulative_reader_gets_reported_total.
 
-(* Full statement: the same without [no_repeated_report].  REFUTED by the faithful model (open finding F27): with the same
-   callback registered twice the cumulative reader is given 0 instead of the reported total 10 *)
-Theorem cumulative_reader_gets_reported_total_refuted :
+(* regression for finding F27 (fixed in 93457c3; the statement above was refuted there): the same callback registered twice
+   reporting total 10 - both readers are given 10 (the cumulative one was given 0); two callbacks reporting different totals
+   for one attribute set - the last report counts *)
+Theorem repeated_report_last_counts :
   Forall (op_ok f27_cfg) f27_ops /\
-  map cp_instr (run_print f27_cfg f27_ops) = [[Some (1, [(0, PSum 0 true)])]] /\
-  spec_obs f27_cfg f27_ops (run_print f27_cfg f27_ops) = fail "cumulative_reader_gets_reported_total:multi_observation".
-Proof. exact model_meets_spec_refuted_lemma. Qed.
-Print Assumptions cumulative_reader_gets_reported_total_refuted.
-
-(* the hypotheses in closed form over the history *)
-Theorem no_repeated_report_meaning : forall c ops i,
-  no_repeated_report c ops i <-> forall g, In g (groups c ops i) -> has_dup (map fst g) = false.
-Proof. exact no_repeated_report_iff. Qed.
-Print Assumptions no_repeated_report_meaning.
+  map cp_instr (run_print f27_cfg f27_ops) = [[Some (1, [(0, PSum 10 true)])]; [Some (0, [(0, PSum 10 true)])]] /\
+  map cp_instr (run_print f27_cfg f27b_ops) =
+    [[Some (1, [(0, PSum 12 true)])]; [Some (0, [(0, PSum 15 true)])]; [Some (1, [(0, PSum 15 true)])]].
+Proof. exact repeated_report_lemma. Qed.
+Print Assumptions repeated_report_last_counts.
 
 (* ---- "and a delta reader receives the difference from what that same reader was last given, independent of other readers'
    collections": [pre ++ [OCollect r]] ends with the reader's previous collection, [post] contains none of its collections
    (anything else: other readers' collections, registrations, removals, new totals).  It is given exactly the attribute sets
    reported since, each with (most recent total) - (its total at the reader's previous collection, 0 if never reported) *)
-Theorem delta_reader_gets_difference_from_own_last_partial : forall c i, (i < ninstr c)%nat -> forall pre post r,
+Theorem delta_reader_gets_difference_from_own_last : forall c i, (i < ninstr c)%nat -> forall pre post r,
   Forall (op_ok c) (pre ++ OCollect r :: post) -> (r < nreaders c)%nat -> cumulative c r = false ->
   is_last (kind_of c i) = false -> Forall (fun o => o <> OCollect r) post ->
-  no_repeated_report c ((pre ++ OCollect r :: post) ++ [OCollect r]) i -> no_negative_total c ((pre ++ OCollect r :: post) ++ [OCollect r]) i ->
+  no_negative_total c ((pre ++ OCollect r :: post) ++ [OCollect r]) i ->
   exists o, snd (run c ((pre ++ OCollect r :: post) ++ [OCollect r])) = snd (run c (pre ++ OCollect r :: post)) ++ [o] /\
             forall a, In a attrs ->
               given c i (nth i (co_tabs o) None) a =
@@ -95,19 +91,19 @@ Theorem delta_reader_gets_difference_from_own_last_partial : forall c i, (i < ni
               | None => None
               end.
 Proof. exact delta_reader_gets_difference_from_own_last_lemma. Qed.
-Print Assumptions delta_reader_gets_difference_from_own_last_partial.
+Print Assumptions delta_reader_gets_difference_from_own_last.
 
 (* the reader's first collection: the difference from nothing *)
-Theorem delta_reader_first_collection_partial : forall c i, (i < ninstr c)%nat -> forall ops r,
+Theorem delta_reader_first_collection : forall c i, (i < ninstr c)%nat -> forall ops r,
   Forall (op_ok c) ops -> (r < nreaders c)%nat -> cumulative c r = false -> is_last (kind_of c i) = false ->
   Forall (fun o => o <> OCollect r) ops ->
-  no_repeated_report c (ops ++ [OCollect r]) i -> no_negative_total c (ops ++ [OCollect r]) i ->
+  no_negative_total c (ops ++ [OCollect r]) i ->
   exists o, snd (run c (ops ++ [OCollect r])) = snd (run c ops) ++ [o] /\
             forall a, In a attrs ->
               given c i (nth i (co_tabs o) None) a =
               option_map (fun v => PSum v (is_mono (kind_of c i))) (last_report (events c (ops ++ [OCollect r]) i) a).
 Proof. exact delta_reader_first_collection_lemma. Qed.
-Print Assumptions delta_reader_first_collection_partial.
+Print Assumptions delta_reader_first_collection.
 
 (* ---- "observable and synchronous gauges report, per attribute set, the most recently observed or recorded value":
    under the stated hypothesis that the clock strictly increases in call order ([clock_increasing]: the real clock, or every
@@ -174,7 +170,7 @@ Proof. exact collect_points. Qed.
 Print Assumptions collect_gives_expected.
 
 (* ---- the SPEC checker that ./check runs on the implementation's observations accepts the model's output:
-   for every LV case, and for every OBS case the parser accepts outside the region of finding F27 *)
+   for every LV case and every OBS history the parser accepts (nothing is excluded) *)
 Theorem model_meets_spec : forall cs, case_good cs -> spec_on cs = [].
 Proof. exact model_meets_spec_lemma. Qed.
 Print Assumptions model_meets_spec.
@@ -184,16 +180,10 @@ Theorem observations_round_trip : forall l, parse_obs (print_obs l) = Some l.
 Proof. exact parse_print_obs. Qed.
 Print Assumptions observations_round_trip.
 
-Theorem model_meets_spec_on_the_wire : forall l cs, parse_case l = Some cs -> case_good cs -> run_spec l (run_model l) = [].
+Theorem model_meets_spec_on_the_wire : forall l cs, parse_case l = Some cs -> run_spec l (run_model l) = [].
 Proof. exact model_meets_spec_wire_lemma. Qed.
 Print Assumptions model_meets_spec_on_the_wire.
 
 Theorem parsed_cases_are_well_formed : forall l c ops, parse_case l = Some (CObs c ops) -> Forall (op_ok c) ops.
 Proof. exact parse_case_ok. Qed.
 Print Assumptions parsed_cases_are_well_formed.
-
-Theorem case_good_meaning : forall c ops,
-  no_f27 c (final_sstate c ops) <->
-  forall i, is_last (kind_of c i) = false -> forall g, In g (groups c ops i) -> has_dup (map fst g) = false.
-Proof. exact no_f27_iff. Qed.
-Print Assumptions case_good_meaning.
